@@ -2,7 +2,12 @@ package props
 
 import (
 	"fmt"
+	"os"
+	"path/filepath"
 	"strings"
+
+	"github.com/robfig/soy"
+	"github.com/robfig/soy/soyhtml"
 
 	"github.com/robfig/soy/errortypes"
 	"github.com/robfig/soy/parse"
@@ -310,7 +315,39 @@ func init() {
 				}
 				ctx.Cell("eol:crlf")
 			}
-			tofu, err := compile(files, nil)
+			var tofu *soyhtml.Tofu
+			var err error
+			if k%4 == 2 && len(files) == 2 && files[0].Name != files[1].Name && files[0].Name != "" && files[1].Name != "" {
+				// the same files read from disk through Bundle.AddTemplateFile, with blank lines before the namespace
+				// declaration: the line numbers are those of the file as it is on disk
+				lead := 1 + ctx.Rng.Intn(5)
+				dir, derr := os.MkdirTemp("", "c19disk")
+				if derr != nil {
+					return fw.Result{Verdict: fw.Inconclusive, Key: "tempdir", Msg: derr.Error()}
+				}
+				defer os.RemoveAll(dir)
+				bnd := soy.NewBundle()
+				shifted := map[int]bool{}
+				for l := range okLines {
+					shifted[l+lead] = true
+				}
+				okLines = shifted
+				desc = fmt.Sprintf("%s shifted by the %d blank lines at the top of the file", desc, lead)
+				for j := range files {
+					files[j].Text = strings.Repeat("\n", lead) + files[j].Text
+					p := filepath.Join(dir, files[j].Name)
+					os.WriteFile(p, []byte(files[j].Text), 0644)
+					if files[j].Name == entryFile {
+						entryFile = p
+					}
+					files[j].Name = p
+					bnd.AddTemplateFile(p)
+				}
+				tofu, err = bnd.CompileToTofu()
+				ctx.Cell("source:disk")
+			} else {
+				tofu, err = compile(files, nil)
+			}
 			if err != nil {
 				return fw.Result{Verdict: fw.Inconclusive, Key: "render-case-does-not-compile", Msg: errText(err), Case: files}
 			}
@@ -344,6 +381,9 @@ func init() {
 				if !cells[fmt.Sprintf("render-depth:%d", d)] {
 					why = append(why, fmt.Sprintf("render depth %d never exercised", d))
 				}
+			}
+			if !cells["source:disk"] {
+				why = append(why, "no bundle was read from disk")
 			}
 			if !cells["eol:crlf"] || !cells["render-duplicate-template"] {
 				why = append(why, "CRLF files and duplicate definitions must both be exercised")
